@@ -38,3 +38,5 @@ impl<A> BoxNew<ClosureObj> for TaskFnObj<A> {
 }
 pub open spec fn ppid<A>(p: &Payload<A>) -> int { match p { Payload::Task(f) => f.pid(), Payload::Stop => -1int, Payload::Restart => -2int } }
 pub broadcast axiom fn pid_of_payload<A>(p: &Payload<A>) ensures #[trigger] pid_of(p) == ppid(p);
+// client contract (§5.2): a message value owns nothing of hannibal's channels (it holds no handle to the actor it is sent to)
+pub broadcast axiom fn own_of_message<M: Message>(m: &M) ensures #[trigger] own_of(m) == own_none();
